@@ -90,3 +90,31 @@ def validate(recs, timeout=1500, workers=None):
         return verdicts, res
     finally:
         shutil.rmtree(d, ignore_errors=True)
+
+
+def model_check(recs, timeout=1200, workers=None):
+    """MC_VM: TLC runs the machine specification by itself on the compiled programs of recs and checks the machine
+    invariants in every reachable state.  Returns (violated invariant or None, id of the program, tlc result)."""
+    if not recs:
+        return None, None, {"states": 0, "transitions": 0}
+    d = core.workdir("mcvm")
+    try:
+        tf = os.path.join(d, "lib.ndjson")
+        with open(tf, "w") as f:
+            for r in recs:
+                r2 = dict(r)
+                r2["trace"] = []
+                r2.pop("prog", None)
+                f.write(json.dumps(r2) + "\n")
+        res = tlcrun.run_tlc("MC_VM", workers=workers or core.TLC_WORKERS, env={"TRACE": tf}, timeout=timeout)
+        if res["ok"]:
+            return None, None, res
+        m = re.search(r"Invariant (\w+) is violated", res["out"])
+        dead = "Deadlock reached" in res["out"]
+        if not m and not dead:
+            tlcrun.require_ok(res, "MC_VM")
+        pis = re.findall(r"/\\ pi = (\d+)", res["out"])
+        pid = recs[int(pis[-1]) - 1]["id"] if pis else None
+        return (m.group(1) if m else "Deadlock"), pid, res
+    finally:
+        shutil.rmtree(d, ignore_errors=True)
